@@ -69,6 +69,14 @@ static Boolean CutRep(
             StrCompSplitRef(&RepArg, pDest, &Src, pEnd);
             StrCompIncRefLeft(&RepArg, 1);
             *pErg = EvalStrIntExpressionWithFlags(&RepArg, Int32, &OK, pFlags);
+
+            /* more repetitions than bytes fit into one statement can never be laid down;
+               refuse them here, before count * size wraps in 32 bit arithmetic */
+
+            if (OK && (*pErg > (LongInt)MaxCodeLen_Max)) {
+                WrError(ErrNum_CodeOverflow);
+                OK = False;
+            }
             return OK;
         }
     }
